@@ -58,8 +58,10 @@ Definition label_client (l : label) : N :=
 Definition check_q (st : state) (q : list (ts * amap)) : bool :=
   forallb (fun tq => amap_eqb (rows_of (fst tq) (st_store st)) (snd tq)) q.
 
-(* one step: the environment assumption holds, the model's output and the visible part of its new
-   state are what the implementation showed *)
+(* one step: the model's output and the visible part of its new state are what the implementation
+   showed.  (The environment assumptions of the theorems — [step_ok], [events_ok] — are not needed for
+   the model to run; the steps at which the implementation's environment broke them are counted by
+   [assumption_breaks] and reported.) *)
 Definition check_step (st : state) (s : cstep) : bool * state :=
   match cs_label s with
   | None =>
@@ -67,7 +69,6 @@ Definition check_step (st : state) (s : cstep) : bool * state :=
   | Some l =>
       let '(st', o) := step st l in
       let ok :=
-        step_ok st l &&
         match cs_obs s, l with
         | XQ q, (LCommit _ | LRestore _ _) => check_q st' q
         | XPub did, LPublish => match o with OPub d => Bool.eqb d did | _ => false end
@@ -107,6 +108,19 @@ Definition diag (c : case) : option N :=
          && N.eqb (N.of_nat (List.length (st_queue st))) (cc_queue c)
       then None else Some 1000%N
   end.
+
+Fixpoint breaks_from (st : state) (l : list cstep) : N :=
+  match l with
+  | [] => 0
+  | s :: r =>
+      match cs_label s with
+      | None => breaks_from st r
+      | Some lb => (if step_ok st lb && events_ok st lb then 0 else 1) + breaks_from (fst (step st lb)) r
+      end
+  end%N.
+
+Definition assumption_breaks (cs : list case) : N :=
+  fold_left (fun n c => (n + breaks_from (init (cc_cache c)) (cc_steps c))%N) cs 0%N.
 
 Definition check (c : case) : bool := match diag c with None => true | Some _ => false end.
 Definition mismatches (cs : list case) : list N := failing check cs.
